@@ -341,12 +341,21 @@ func requestCase(c *h.Case, mi int, m string, k int) {
 		c.Violation("argument-count:"+shape, fmt.Sprintf("sent %d arguments, service codec decoded %d", n, len(gotArgs)), rep)
 		return
 	}
+	seenPtr := map[uintptr]bool{}
+	for hv := range hdr {
+		_ = hv
+	}
 	for i := range gotArgs {
 		pt := ptype(i)
 		if pt != nil && pt.Kind() != reflect.Interface {
 			if gotArgs[i] == nil || reflect.TypeOf(gotArgs[i]) != pt {
 				c.Violation("argument-type:"+shape, fmt.Sprintf("argument %d: parameter type %s, decoded %T", i, pt, gotArgs[i]), rep)
 				continue
+			}
+		}
+		if pt == nil || pt.Kind() == reflect.Interface {
+			if why := structShape(seenPtr, args[i], gotArgs[i], o.set.Struct); why != "" {
+				c.Violation("struct-type-option-ignored:"+shape, fmt.Sprintf("argument %d: %s (service codec option StructType=%d)", i, why, o.set.Struct), rep)
 			}
 		}
 		if args[i] != nil && iox.ContainsInterface(reflect.TypeOf(args[i])) && !iox.SettingCanHold(eqv.Denote(args[i]), o.set) {
@@ -434,6 +443,14 @@ func missingCase(c *h.Case, k int) {
 		c.Violation("argument-count:missing", fmt.Sprintf("sent %d, decoded %d", n, len(gotArgs)), rep)
 		return
 	}
+	// the service's StructType option decides how a registered struct arrives where no Go type is declared
+	seenPtr := map[uintptr]bool{}
+	for i := range gotArgs {
+		if why := structShape(seenPtr, args[i], gotArgs[i], o.set.Struct); why != "" {
+			c.Violation("struct-type-option-ignored:missing", fmt.Sprintf("argument %d: %s (service codec option StructType=%d)", i, why, o.set.Struct), rep)
+			break
+		}
+	}
 	if canHold(args, o.set) {
 		if why := eqv.DEqual(eqv.Denote(args), eqv.Denote(gotArgs)); why != "" {
 			c.Violation("argument-denotation:missing", fmt.Sprintf("arguments of a call routed to the missing-method handler changed: %s\nsent=%#v\ngot =%#v\nrequest=%s", why, args, gotArgs, h.Hex(clip(req, 600))), rep)
@@ -442,6 +459,47 @@ func missingCase(c *h.Case, k int) {
 	if n > 1 {
 		r.Distinct(fmt.Sprintf("missing|%d|%s", k%64, o.String()))
 	}
+}
+
+// structShape: a registered struct sent as a value or pointer arrives as *T under
+// StructTypePtr (the default) and as T under StructTypeValue, at the top of an interface{}
+// position and inside untyped lists.
+func structShape(seen map[uintptr]bool, sent, got interface{}, st hio.StructType) string {
+	if sent == nil || got == nil {
+		return ""
+	}
+	sv := reflect.ValueOf(sent)
+	if sv.Kind() == reflect.Slice && sv.Type().Elem().Kind() == reflect.Interface {
+		gv := reflect.ValueOf(got)
+		if gv.Kind() == reflect.Slice && gv.Len() == sv.Len() {
+			for i := 0; i < sv.Len(); i++ {
+				if why := structShape(seen, sv.Index(i).Interface(), gv.Index(i).Interface(), st); why != "" {
+					return why
+				}
+			}
+		}
+		return ""
+	}
+	t := sv.Type()
+	if t.Kind() == reflect.Ptr {
+		// a pointer that occurred before travels as a back-reference, which always yields the pointer
+		if sv.IsNil() || seen[sv.Pointer()] {
+			return ""
+		}
+		seen[sv.Pointer()] = true
+		t = t.Elem()
+	}
+	if t.Kind() != reflect.Struct || t.PkgPath() != "verif/internal/gentypes" {
+		return ""
+	}
+	gt := reflect.TypeOf(got)
+	if st == hio.StructTypeValue && gt.Kind() != reflect.Struct {
+		return fmt.Sprintf("sent %T, decoded %T: a struct value is wanted", sent, got)
+	}
+	if st != hio.StructTypeValue && gt.Kind() != reflect.Ptr {
+		return fmt.Sprintf("sent %T, decoded %T: a pointer is wanted", sent, got)
+	}
+	return ""
 }
 
 // looseEqual: a convertible argument: digit strings and numbers of other widths denote the number.
@@ -809,6 +867,8 @@ func jsonCase(c *h.Case, k int) {
 		{"Variadic", []interface{}{"p"}},
 		{"Any", []interface{}{tree}},
 		{"NoArgs", nil},
+		{"noSuchJSONMethod", []interface{}{nil, 1, "x", nil}},
+		{"noSuchJSONMethod", []interface{}{nil}},
 		{"Bytes", []interface{}{[]byte(nil)}},
 		{"Any", []interface{}{nil}},
 		{"Slices", []interface{}{[]int(nil), []string{}, [][]byte{nil}, []interface{}{nil}, []float64(nil)}},
@@ -861,6 +921,9 @@ func jsonCase(c *h.Case, k int) {
 			pt = params[len(params)-1].Elem()
 		} else if i < len(params) {
 			pt = params[i]
+		}
+		if method.Missing() {
+			pt = nil
 		}
 		if pt != nil && pt.Kind() != reflect.Interface && reflect.TypeOf(args[i]) != pt {
 			c.Violation("jsonrpc-argument-type", fmt.Sprintf("argument %d: parameter %s, decoded %T", i, pt, args[i]), rep)
